@@ -86,7 +86,6 @@ from tensordict.utils import (
     unravel_key_list,
 )
 from torch import nn, Tensor
-from torch._dynamo import graph_break
 from torch._functorch.vmap import _maybe_remove_batch_dim
 from torch.nn.parameter import UninitializedTensorMixin
 from torch.nn.utils._named_member_accessor import swap_tensor
@@ -286,9 +285,9 @@ class TensorDict(TensorDictBase):
                     f"sub-type or a dictionary, found type(source)={type(source)}."
                 )
             self._batch_size = self._parse_batch_size(source, batch_size)
-            # TODO: this breaks when stacking tensorclasses with dynamo
-            if not is_compiling():
-                self.names = names
+            # also under compile: skipping the names there made the result of every op
+            # on a named tensordict lose its names
+            self.names = names
 
             for key, value in source.items():
                 self.set(key, value, non_blocking=sub_non_blocking)
@@ -2430,13 +2429,6 @@ class TensorDict(TensorDictBase):
 
     @names.setter
     def names(self, value):
-        if is_compiling():
-            if value is not None:
-                graph_break()
-            else:
-                # We have already made sure that the tensordict was not named
-                return
-
         if self._is_locked:
             # names can be assigned under lock: a lazy stack that holds this tensordict memoises its names
             self._erase_cache_up()
